@@ -76,16 +76,31 @@ def check_tree(doc, stage):
             rid = n.get("refid")
             if rid is not None and isinstance(n, (nodes.reference, nodes.footnote_reference, nodes.target, nodes.problematic, nodes.citation_reference)):
                 if rid not in present and not _warned(n):
-                    out.append((f"refid:dangling:{n.tagname}", f"<{n.tagname}> refid {rid!r} names no id in the tree and no target-not-found message was issued", n))
+                    reg = doc.ids.get(rid)
+                    if reg is not None and not _attached(reg, doc):
+                        # the id is registered, but its node was produced by a nested parse whose result the directive threw away
+                        out.append(("dangling:registered-node-not-in-tree", f"<{n.tagname}> refid {rid!r}: the id is registered in document.ids but its <{reg.tagname}> node is not part of the tree", n))
+                    else:
+                        out.append((f"refid:dangling:{n.tagname}", f"<{n.tagname}> refid {rid!r} names no id in the tree and no target-not-found message was issued", n))
             for b in n.get("backrefs", []) if isinstance(n, (nodes.footnote, nodes.citation, nodes.system_message)) else []:
                 if b not in present:
-                    out.append((f"backref:dangling:{n.tagname}", f"<{n.tagname}> backref {b!r} names no id in the tree", n))
+                    reg = doc.ids.get(b)
+                    if reg is not None and not _attached(reg, doc):
+                        out.append(("dangling:registered-node-not-in-tree", f"<{n.tagname}> backref {b!r}: the id is registered in document.ids but its <{reg.tagname}> node is not part of the tree", n))
+                    else:
+                        out.append((f"backref:dangling:{n.tagname}", f"<{n.tagname}> backref {b!r} names no id in the tree", n))
         # (7) footnotes start with their label
         for f in doc.findall(nodes.footnote):
             if not len(f) or not isinstance(f[0], nodes.label):
                 out.append(("footnote:no-label", f"footnote {f.get('names')} starts with <{f[0].tagname if len(f) else None}>", f))
     check_tree.last_diag = diag
     return out
+
+
+def _attached(node, doc):
+    while node.parent is not None:
+        node = node.parent
+    return node is doc
 
 
 def _warned(ref):
